@@ -236,6 +236,21 @@ bool applySite(ASTContext& Ctx, Rewriter& RW, const Site& s, int id) {
         C.TraverseDecl(const_cast<FunctionDecl*>(s.F));
         std::string nn = s.V->getNameAsString() + "_gm";
         if (C.Bad || C.Names.count(nn) || s.V->getLocation().isMacroID()) return false;
+        {
+            // the name must not occur in code that this configuration does not see (arguments of disabled macros such as
+            // DEBUG_PRINT): every whole-word occurrence in the function text has to be the declaration or a resolved use
+            std::string body = T(s.F->getSourceRange());
+            std::string nm = s.V->getNameAsString();
+            size_t count = 0, pos = 0;
+            auto idch = [](char c) { return isalnum((unsigned char)c) || c == '_'; };
+            while ((pos = body.find(nm, pos)) != std::string::npos) {
+                bool l = pos == 0 || !idch(body[pos - 1]);
+                bool r = pos + nm.size() >= body.size() || !idch(body[pos + nm.size()]);
+                if (l && r) count++;
+                pos += nm.size();
+            }
+            if (count != C.Uses.size() + 1) return false;
+        }
         for (auto* P : s.F->parameters())
             if (P->getNameAsString() == nn) return false;
         RW.ReplaceText(s.V->getLocation(), s.V->getName().size(), nn);
